@@ -108,7 +108,7 @@ package document
 //@ ensures err == nil ==> len(d.Body.Elements) == old(len(d.Body.Elements)) + 1
 //@ ensures err == nil ==> typeIs(d.Body.Elements[old(len(d.Body.Elements))], "*Table") && d.Body.Elements[old(len(d.Body.Elements))].(*Table) == result0
 //@ ensures err == nil ==> forall j int :: 0 <= j && j < old(len(d.Body.Elements)) ==> d.Body.Elements[j] == old(d.Body.Elements[j])
-//@ ensures old(elemsOK(d.Body.Elements)) ==> forall j int :: {d.Body.Elements[j]} 0 <= j && j < len(d.Body.Elements) ==> ref(d.Body.Elements[j]) != nil
+//@ ensures err == nil && old(elemsOK(d.Body.Elements)) && (forall j int :: 0 <= j && j < old(len(d.Body.Elements)) ==> d.Body.Elements[j] == old(d.Body.Elements[j])) && len(d.Body.Elements) == old(len(d.Body.Elements)) + 1 && result0 != nil && d.Body.Elements[old(len(d.Body.Elements))].(*Table) == result0 ==> elemsOK(d.Body.Elements)
 //@ ensures unchangedExcept("Body.Elements", "cell:any")
 //@ ensures err == nil ==> len(result0.Rows) == config.Rows && freshArr(result0.Rows)
 //@ ensures err == nil ==> result0.Grid != nil && fresh(result0.Grid) && len(result0.Grid.Cols) == config.Cols && freshArr(result0.Grid.Cols)
